@@ -260,3 +260,44 @@ Example C06_ex_rev :
 Proof. vm_compute. repeat split; reflexivity. Qed.
 Example C06_ex_is_zero_one : is_zero [0; 0; 0] = true /\ is_one [1; 0; 0] = true /\ is_one [1; 0; 1] = false.
 Proof. vm_compute. repeat split; reflexivity. Qed.
+
+(* ---- tie to the source: the digit-wise logic, comparison and bit-counting loops REGENERATED from
+   /repo/src/buint/const_trait_fillers.rs and /repo/src/buint/mod.rs on every run (Generated/Loops.v,
+   tools/rs2v_loops.py; control-flow vocabulary Model/Imp.v) compute exactly the model's functions: with an
+   iteration budget of at least N they neither panic nor run out of budget. ---- *)
+From Bnum.Model Require Import Imp.
+From Bnum.Generated Require Import Loops.
+From Bnum.Proofs Require Import LoopsTieC06.
+Theorem C06_loops_rs_match_model w : 0 < w ->
+  (forall n a b fuel, wf w n a -> wf w n b -> (n <= fuel)%nat ->
+     Loops.bitand w (Z.of_nat n) fuel a b = Done (bitand a b)) /\
+  (forall n a b fuel, wf w n a -> wf w n b -> (n <= fuel)%nat ->
+     Loops.bitor w (Z.of_nat n) fuel a b = Done (bitor a b)) /\
+  (forall n a b fuel, wf w n a -> wf w n b -> (n <= fuel)%nat ->
+     Loops.bitxor w (Z.of_nat n) fuel a b = Done (bitxor a b)) /\
+  (forall n a fuel, wf w n a -> (n <= fuel)%nat ->
+     Loops.not_ w (Z.of_nat n) fuel a = Done (bitnot w a)) /\
+  (forall n a b fuel, wf w n a -> wf w n b -> (n <= fuel)%nat ->
+     Loops.eq_ w (Z.of_nat n) fuel a b = Done (eq_digits a b)) /\
+  (forall n a b fuel, wf w n a -> wf w n b -> (n <= fuel)%nat ->
+     Loops.cmp w (Z.of_nat n) fuel a b = Done (ucmp a b)) /\
+  (forall n a fuel, wf w n a -> (n <= fuel)%nat ->
+     Loops.count_ones w (Z.of_nat n) fuel a = Done (count_ones a)) /\
+  (forall n a fuel, wf w n a -> (n <= fuel)%nat ->
+     Loops.count_zeros w (Z.of_nat n) fuel a = Done (count_zeros w a)) /\
+  (forall n a fuel, wf w n a -> (n <= fuel)%nat ->
+     Loops.leading_zeros w (Z.of_nat n) fuel a = Done (leading_zeros w a)) /\
+  (forall n a fuel, wf w n a -> (n <= fuel)%nat ->
+     Loops.trailing_zeros w (Z.of_nat n) fuel a = Done (trailing_zeros w a)) /\
+  (forall n a fuel, wf w n a -> (n <= fuel)%nat ->
+     Loops.leading_ones w (Z.of_nat n) fuel a = Done (leading_ones w a)) /\
+  (forall n a fuel, wf w n a -> (n <= fuel)%nat ->
+     Loops.trailing_ones w (Z.of_nat n) fuel a = Done (trailing_ones w a)) /\
+  (forall n a fuel, wf w n a -> (n <= fuel)%nat ->
+     Loops.is_power_of_two w (Z.of_nat n) fuel a = Done (U_is_power_of_two a)) /\
+  (forall n a fuel, wf w n a -> (n <= fuel)%nat ->
+     Loops.is_zero w (Z.of_nat n) fuel a = Done (is_zero a)) /\
+  (forall n a fuel, wf w n a -> (n <= fuel)%nat ->
+     Loops.is_one w (Z.of_nat n) fuel a = Done (is_one a)).
+Proof. exact (loops_C06_match_model w). Qed.
+Print Assumptions C06_loops_rs_match_model.
